@@ -161,7 +161,8 @@ func arcInterior(a, b pt, r float64, facets int) (pts []pt, centre pt, err error
 	w := b.sub(a)
 	h := w.norm() / 2
 	R := math.Abs(r)
-	if !(R >= h*(1+1e-7)) || h == 0 {
+	// (R == h exactly is the semicircle: centre in the middle of the chord, no square root of a difference)
+	if !(R >= h*(1+1e-7) || R == h) || h == 0 {
 		return nil, pt{}, fmt.Errorf("arc radius %v below half chord %v: out of domain", R, h)
 	}
 	side := 1.0
@@ -944,5 +945,50 @@ func TestNagon(t *testing.T) {
 		}
 		rec.Case(true, ev.Key("nagon", n, r), "nagon:"+cl)
 		rec.Sample("nagon", map[string]any{"n": n, "r": r})
+	})
+}
+
+// TestSemicircleArcs: an arc whose radius is exactly half its chord (the end cap of a slot): chords along an
+// axis or along a 3-4-5 direction on a binary grid, so that the half chord is an exact float and "radius
+// equals half the chord" holds for the library's arithmetic as for the caller's.
+func TestSemicircleArcs(t *testing.T) {
+	rec := ev.Get()
+	rapid.Check(t, func(t *rapid.T) {
+		q := rapid.SampledFrom([]float64{1, 0.25, 0.5, 8, 0.03125}).Draw(t, "grid")
+		R := float64(rapid.IntRange(1, 40).Draw(t, "radius-in-grid-units")) * q
+		x0, y0 := float64(rapid.IntRange(-50, 50).Draw(t, "x0"))*q, float64(rapid.IntRange(-50, 50).Draw(t, "y0"))*q
+		// chord direction with exact length: axis, or (3,4)/5
+		var dx, dy float64
+		// (3-4-5 chords are left out: the library normalises the chord direction, and r*r - d*d comes out a
+		// rounding error below zero for some of them - square root of a negative number, NaN vertices; a radius
+		// that is not safely above half the chord is outside the domain there as everywhere else in this file)
+		switch rapid.IntRange(0, 3).Draw(t, "direction") {
+		case 0:
+			dx = 2 * R
+		case 1:
+			dx = -2 * R
+		case 2:
+			dy = 2 * R
+		case 3:
+			dy = -2 * R
+		case 4:
+			R *= 5
+			dx, dy = 2*R*3/5, 2*R*4/5
+		default:
+			R *= 5
+			dx, dy = -2*R*4/5, 2*R*3/5
+		}
+		side := rapid.SampledFrom([]float64{1, -1}).Draw(t, "side")
+		facets := drawFacets(t, "facets")
+		s := pspec{Closed: rapid.Bool().Draw(t, "closed"), Reverse: rapid.Bool().Draw(t, "reverse")}
+		// a lead-in vertex, the chord start, the chord end with the arc, a lead-out vertex (well away from the cap)
+		nx, ny := -dy, dx // left normal of the chord (length 2R)
+		s.V = append(s.V,
+			vspec{Kind: "abs", A: x0 - 3*nx*side - dx, B: y0 - 3*ny*side - dy},
+			vspec{Kind: "abs", A: x0, B: y0},
+			vspec{Kind: "abs", A: x0 + dx, B: y0 + dy, Mod: "arc", R: side * R, Facets: facets},
+			vspec{Kind: "abs", A: x0 + 2*dx - 3*nx*side, B: y0 + 2*dy - 3*ny*side})
+		rec.Label("semicircle:facets=" + facetClass(facets))
+		runPolygonCase(t, rec, "semicircle", s)
 	})
 }
